@@ -170,8 +170,30 @@ def run(ck):
     unreg = [cs for cs in T.calls(b, name="unregister", trait="EventDispatcher", self_kind=("dyn",)) if cs.bb in dl.blocks]
     src_stores = [(i, j, st) for i, j, st in T.stores_to_field(b, "source") if i in dl.blocks]
 
+    # a later test of the same action value (`if ret == PostAction::Remove`, `matches!(ret, ..)`) guards an effect just
+    # as the arm of the switch does
+    def later_tests(arm):
+        out = []
+        for cs in T.calls(b, name=("eq", "ne"), trait="PartialEq"):
+            if cs.bb not in dl.blocks or b.is_cleanup(cs.bb) or len(cs.args) != 2:
+                continue
+            pv = [T.promoted_variant(b, a) for a in cs.args]
+            if not any(p_ and p_[0] == PA and p_[1] == arm for p_ in pv):
+                continue
+            other = [a for a, p_ in zip(cs.args, pv) if not p_]
+            if len(other) != 1 or not any(T.refers_to_local(b, other[0], l) for l in ret_locals):
+                continue
+            for s2, mode in T.call_result_switches(b, cs.bb):
+                out += T.edges_of_value(b, s2, cs.name == "eq")
+        for g in T.switches_on_discr_of(b, lambda pl: pl["l"] in ret_locals and not pl["p"]):
+            if g != sw and g in dl.blocks and g in b.reachable([sw], removed_blocks=[dl.header]):
+                out += T.discr_edges(b, g, T.variant_discr(f, PA, arm))
+        return out
+
+    arms_ext = {a: list(es) + later_tests(a) for a, es in arms.items()}
+
     def only_via(bb, arm):
-        return T.reachable_only_via(b, bb, arms[arm], frm=[sw], barrier=[dl.header])
+        return T.reachable_only_via(b, bb, arms_ext[arm], frm=[sw], barrier=[dl.header])
 
     unreg_disable = [cs for cs in unreg if only_via(cs.bb, "Disable")]
     checks = [("Reregister", rereg, "reregister"), ("Disable", unreg_disable, "unregister")]
@@ -182,7 +204,7 @@ def run(ck):
         for cs in sites:
             ck.verdict(only_via(cs.bb, arm), "3", "T4-guarded-by", b, "arm:%s/site:%s" % (arm, what), "%s is applied only on the %s arm" % (what, arm), "%s is reachable from the post-action switch outside the %s arm" % (what, arm), site=b.where(cs.bb))
             ck.verdict(b.resolve(cs.args[0]) == disp_roots, "3", "T6-provenance", b, "arm:%s/receiver" % arm, "the receiver is the dispatcher whose events were just processed", "the receiver is not the dispatcher that was just processed: %s" % b.roots_str(cs.args[0]), site=b.where(cs.bb))
-        bad = T.t2_all_exits(b, [e[1] for e in arms[arm]], [cs.bb for cs in sites], exits=dl.exits, removed_edges=[e for e in [x for a, es in arms.items() if a != arm for x in es]])
+        bad = T.t2_all_exits(b, list(arms[arm]), [cs.bb for cs in sites], exits=dl.exits, removed_edges=[e for e in [x for a, es in arms.items() if a != arm for x in es]])
         ck.verdict(bad is None, "3", "T2-all-exits", b, "arm:%s/must-apply" % arm, "every path through the %s arm performs the %s" % (arm, what), "a path through the %s arm skips the %s" % (arm, what), site=b.where(sw), path=path_descr(b, bad) if bad else None)
     # tokens handed to reregister/unregister derive from this iteration's event token
     for cs in T.calls(b, name="new", path="TokenFactory::new") + T.calls(b, name="new", path="RegistrationToken::new"):
@@ -199,11 +221,20 @@ def run(ck):
         ck.verdict(any(x[1] == "None" for x in v), "3", "T6-provenance", b, "arm:Remove/store-None", "the slot is emptied", "the Remove arm stores %s into the slot" % sorted(v), site=b.where(i))
         gm = [cs for cs in T.calls(b, name=("get_mut", "get"), path="SourceList") if cs.bb in dl.blocks and T.resolves_to_call(b, st["pl"], [cs.bb])]
         ck.verdict(bool(gm) and all(ev_tok_ok(cs.args[1]) for cs in gm), "3", "T6-provenance", b, "arm:Remove/slot-of-this-token", "the cleared slot was looked up with this iteration's token", "the cleared slot is not the one looked up with this iteration's token", site=b.where(i))
-    bad = T.t2_all_exits(b, [e[1] for e in arms["Remove"]], [i for i, _, _ in rem_stores] + [cs.bb for cs in T.calls(b, name=("get_mut",), path="SourceList") if cs.bb in dl.blocks and False], exits=dl.exits, removed_edges=[x for a, es in arms.items() if a != "Remove" for x in es])
+    bad = T.t2_all_exits(b, list(arms["Remove"]), [i for i, _, _ in rem_stores] + [cs.bb for cs in T.calls(b, name=("get_mut",), path="SourceList") if cs.bb in dl.blocks and False], exits=dl.exits, removed_edges=[x for a, es in arms.items() if a != "Remove" for x in es])
     if bad is not None:
         # acceptable only if the bypass is the lookup-miss edge of the generation-checked get_mut
         gm_bbs = [cs.bb for cs in T.calls(b, name="get_mut", path="SourceList") if cs.bb in dl.blocks and only_via(cs.bb, "Remove")]
         through_lookup = any(x in gm_bbs for x in bad)
+        if not through_lookup:
+            # the lookup whose slot the store clears, placed after the arms joined: the avoiding path must take its
+            # lookup-miss (Err) edge
+            pairs = set(zip(bad, bad[1:]))
+            for cs in T.calls(b, name="get_mut", path="SourceList"):
+                if cs.bb in dl.blocks and cs.bb in bad and any(T.resolves_to_call(b, st_["pl"], [cs.bb]) for _, _, st_ in rem_stores):
+                    ok_e, err_e, _ = T.result_split(b, cs.bb)
+                    if err_e and set(err_e) & pairs:
+                        through_lookup = True
         ck.verdict(through_lookup, "3", "T2-all-exits", b, "arm:Remove/must-clear", "the only way through the Remove arm that does not clear the slot is the lookup-miss edge (slot already gone or reused)", "a path through the Remove arm neither clears the slot nor is a lookup miss", site=b.where(sw), path=path_descr(b, bad))
     else:
         ck.ok("3", "T2-all-exits", b, "arm:Remove/must-clear", "every path through the Remove arm clears the slot", site=b.where(sw))
